@@ -189,4 +189,243 @@ theorem verdicts_sound (n : Notify) (tg calls : List (Int × Bool)) (w : Nat) (o
     rw [hpair]
     exact hcall
 
+/-! ## the same register, with unbounded packet ids
+
+`pid` is the receiver's full packet-id counter (`InPacketId`, never wraps in the model).  Tags carry full ids, so "the
+receiver asked for packet `q` to be acknowledged" is unambiguous and — ids only grow — `false` in the register for `q`
+means: not accepted-and-acknowledged, now or ever. -/
+
+def ackSeqLoopF (fuel : Nat) (n : Notify) (tg : List (Int × Bool)) (pid : Int) (acked : Int) (isAck : Bool) : Notify × List (Int × Bool) × Int :=
+  match fuel with
+  | 0 => (n, tg, pid)
+  | fuel+1 =>
+    if seq_num_greater_than acked n.inAckSeq then
+      let s := seq_num_inc n.inAckSeq 1
+      let rep := if s == acked then isAck else false
+      ackSeqLoopF fuel { n with inAckSeq := s, hist := pushHist n.hist rep } ((pid + 1, rep) :: tg) (pid + 1) acked isAck
+    else (n, tg, pid)
+
+theorem ackSeqLoopF_fst (fuel : Nat) : ∀ (n : Notify) (tg : List (Int × Bool)) (pid acked : Int) (isAck : Bool),
+    (ackSeqLoopF fuel n tg pid acked isAck).1 = ackSeqLoop fuel n acked isAck := by
+  induction fuel with
+  | zero => intros; rfl
+  | succ fuel ih =>
+    intro n tg pid acked isAck
+    unfold ackSeqLoopF ackSeqLoop
+    split
+    · exact ih _ _ _ _ _
+    · rfl
+
+structure RInvF (n : Notify) (tg : List (Int × Bool)) (calls : List (Int × Bool)) (pid : Int) : Prop where
+  reg : n.inAckSeq = pid % 16384
+  hist : n.hist = histOf tg
+  /-- bit `k` of the register belongs to packet `pid - k` -/
+  keys : ∀ k (hk : k < tg.length), (tg[k]).1 = pid - (k : Int)
+  /-- a bit is set **iff** the receiver asked for exactly that packet to be acknowledged -/
+  ack : ∀ p ∈ tg, (p.2 = true ↔ (p.1, true) ∈ calls)
+  /-- requests are only ever made for the packet just accepted: none concerns a packet beyond the counter -/
+  callsLe : ∀ q ∈ calls, q.1 ≤ pid
+
+theorem RInvF.congr {n n' : Notify} {tg calls : List (Int × Bool)} {pid : Int} (h : RInvF n tg calls pid) (h1 : n'.hist = n.hist) (h2 : n'.inAckSeq = n.inAckSeq) :
+    RInvF n' tg calls pid :=
+  ⟨by rw [h2]; exact h.reg, by rw [h1]; exact h.hist, h.keys, h.ack, h.callsLe⟩
+
+theorem init_rinvF (n : Notify) (i o pid : Int) (hi : i = pid % 16384) : RInvF (n.init i o) [] [] pid := by
+  refine ⟨hi, ?_, ?_, ?_, ?_⟩
+  · show List.replicate histLen false = histOf []
+    rw [histLen_eq]; simp only [histOf, List.map_nil, List.nil_append, List.take_replicate, Nat.min_self]
+  · intro k hk; simp at hk
+  · intro p hp; simp at hp
+  · intro q hq; simp at hq
+
+/-- the loop advances the register from packet `pid` to packet `target` (`0 ≤ target - pid < 8192`), recording `isAck` for
+`target` and `false` for every packet in between -/
+theorem ackSeqLoopF_inv (fuel : Nat) : ∀ (n : Notify) (tg calls : List (Int × Bool)) (pid target : Int) (isAck : Bool),
+    RInvF n tg calls pid → pid ≤ target → target - pid < 8192 → target - pid ≤ fuel →
+    RInvF (ackSeqLoopF fuel n tg pid (target % 16384) isAck).1 (ackSeqLoopF fuel n tg pid (target % 16384) isAck).2.1
+      (if pid < target then (target, isAck) :: calls else calls) target := by
+  induction fuel with
+  | zero =>
+    intro n tg calls pid target isAck h h1 _ h3
+    have : target = pid := by omega
+    subst this
+    simp only [Int.lt_irrefl, if_false]
+    exact h
+  | succ fuel ih =>
+    intro n tg calls pid target isAck h h1 h2 h3
+    unfold ackSeqLoopF
+    have hreg := h.reg
+    by_cases heq : target = pid
+    · subst heq
+      have : seq_num_greater_than (target % 16384) n.inAckSeq = false := by
+        rw [hreg]; exact gt_irrefl _
+      simp only [this, Bool.false_eq_true, if_false, Int.lt_irrefl]
+      exact h
+    · have hlt : pid < target := by omega
+      have hgt : seq_num_greater_than (target % 16384) n.inAckSeq = true := by
+        rw [hreg]
+        simp only [seq_num_greater_than, Bool.and_eq_true, bne_iff_ne, ne_eq, decide_eq_true_eq]
+        omega
+      simp only [hgt, if_true, hlt]
+      have hs : seq_num_inc n.inAckSeq 1 = (pid + 1) % 16384 := by
+        rw [hreg]; simp only [seq_num_inc, seq_num_init]; omega
+      -- is this the last step?
+      have hrep : (seq_num_inc n.inAckSeq 1 == target % 16384) = decide (pid + 1 = target) := by
+        rw [hs]
+        by_cases hl : pid + 1 = target
+        · simp [hl]
+        · have : ¬ ((pid + 1) % 16384 = target % 16384) := by omega
+          simp [hl, this]
+      -- the state after one push satisfies the invariant for packet `pid + 1`, against the final call list when this is the last
+      -- step and against the old one otherwise
+      by_cases hl : pid + 1 = target
+      · have hstep : RInvF { n with inAckSeq := seq_num_inc n.inAckSeq 1, hist := pushHist n.hist (if (seq_num_inc n.inAckSeq 1 == target % 16384) = true then isAck else false) }
+            ((pid + 1, if (seq_num_inc n.inAckSeq 1 == target % 16384) = true then isAck else false) :: tg) ((target, isAck) :: calls) (pid + 1) := by
+          rw [hrep]
+          simp only [hl, decide_true, if_true]
+          refine ⟨?_, ?_, ?_, ?_, ?_⟩
+          · show seq_num_inc n.inAckSeq 1 = target % 16384
+            rw [hs, hl]
+          · show pushHist n.hist isAck = histOf ((target, isAck) :: tg)
+            rw [h.hist]; exact pushHist_histOf tg _ _
+          · intro k hk
+            cases k with
+            | zero => simp
+            | succ k =>
+              simp only [List.getElem_cons_succ]
+              rw [h.keys k (by simpa using hk)]; push_cast; omega
+          · intro p hp
+            rcases List.mem_cons.mp hp with rfl | hp
+            · simp only
+              constructor
+              · intro ht; rw [ht]; exact List.mem_cons_self
+              · intro hm
+                rcases List.mem_cons.mp hm with hm | hm
+                · exact (Prod.ext_iff.mp hm).2.symm
+                · have := h.callsLe _ hm; simp only at this; omega
+            · obtain ⟨k, hk, rfl⟩ := List.getElem_of_mem hp
+              have hkey := h.keys k hk
+              rw [h.ack _ hp]
+              constructor
+              · intro hm; exact List.mem_cons_of_mem _ hm
+              · intro hm
+                rcases List.mem_cons.mp hm with hm | hm
+                · have := (Prod.ext_iff.mp hm).1; simp only at this; omega
+                · exact hm
+          · intro q hq
+            rcases List.mem_cons.mp hq with rfl | hq
+            · simp only; omega
+            · have := h.callsLe q hq; omega
+        have hrec := ih _ _ ((target, isAck) :: calls) (pid + 1) target isAck hstep (by omega) (by omega) (by omega)
+        have hnl : ¬ (pid + 1 < target) := by omega
+        simp only [hnl, if_false] at hrec
+        exact hrec
+      · have hstep : RInvF { n with inAckSeq := seq_num_inc n.inAckSeq 1, hist := pushHist n.hist (if (seq_num_inc n.inAckSeq 1 == target % 16384) = true then isAck else false) }
+            ((pid + 1, if (seq_num_inc n.inAckSeq 1 == target % 16384) = true then isAck else false) :: tg) calls (pid + 1) := by
+          rw [hrep]
+          simp only [hl, decide_false, Bool.false_eq_true, if_false]
+          refine ⟨?_, ?_, ?_, ?_, ?_⟩
+          · show seq_num_inc n.inAckSeq 1 = (pid + 1) % 16384
+            exact hs
+          · show pushHist n.hist false = histOf ((pid + 1, false) :: tg)
+            rw [h.hist]; exact pushHist_histOf tg _ _
+          · intro k hk
+            cases k with
+            | zero => simp
+            | succ k =>
+              simp only [List.getElem_cons_succ]
+              rw [h.keys k (by simpa using hk)]; push_cast; omega
+          · intro p hp
+            rcases List.mem_cons.mp hp with rfl | hp
+            · simp only
+              constructor
+              · intro ht; cases ht
+              · intro hm; have := h.callsLe _ hm; simp only at this; omega
+            · exact h.ack p hp
+          · intro q hq; have := h.callsLe q hq; omega
+        have hrec := ih _ _ calls (pid + 1) target isAck hstep (by omega) (by omega) (by omega)
+        have hl' : pid + 1 < target := by omega
+        simp only [hl', if_true] at hrec
+        exact hrec
+
+/-- **`packet_notify_ack_seq` for the packet just accepted**: the counter has moved from `pid` to `target` (by less than 2^13) -/
+theorem ackSeq_rinvF (n : Notify) (tg calls : List (Int × Bool)) (pid target : Int) (isAck : Bool) (h : RInvF n tg calls pid)
+    (h1 : pid < target) (h2 : target - pid < 8192) :
+    ∃ tg', RInvF (n.ackSeq target isAck) tg' ((target, isAck) :: calls) target := by
+  have := ackSeqLoopF_inv 16384 n tg calls pid target isAck h (by omega) h2 (by omega)
+  rw [ackSeqLoopF_fst] at this
+  simp only [h1, if_true] at this
+  refine ⟨(ackSeqLoopF 16384 n tg pid (target % 16384) isAck).2.1, ?_⟩
+  unfold Notify.ackSeq
+  have hs : seq_num_init (target % 65536) = target % 16384 := by simp only [seq_num_init]; omega
+  rw [hs]
+  exact this
+
+/-- **what every bit of an acknowledgement header means**, both ways: the verdict the sender derives for position `idx` of the
+register is `true` iff the receiver asked for packet `pid - idx` to be acknowledged, and the 14-bit id the sender attaches to
+that verdict is that packet's id modulo 2^14 -/
+theorem verdicts_exact (n : Notify) (tg calls : List (Int × Bool)) (pid : Int) (w : Nat) (outAck : Int) (h : RInvF n tg calls pid)
+    (ho : 0 ≤ outAck ∧ outAck < 16384) (hgt : seq_num_greater_than (n.headerWith w).ackedSeq outAck = true)
+    (i : Nat) (hi : i < (seq_num_diff (n.headerWith w).ackedSeq outAck).toNat) (v : Int × Bool)
+    (hvi : (verdicts outAck (n.headerWith w) (seq_num_diff (n.headerWith w).ackedSeq outAck).toNat)[i]? = some v) :
+    v.1 = (pid - (((seq_num_diff (n.headerWith w).ackedSeq outAck).toNat - 1 - i : Nat) : Int)) % 16384 ∧
+    (v.2 = true → (pid - (((seq_num_diff (n.headerWith w).ackedSeq outAck).toNat - 1 - i : Nat) : Int), true) ∈ calls) ∧
+    (v.2 = false → (seq_num_diff (n.headerWith w).ackedSeq outAck).toNat - 1 - i < 256 →
+      (seq_num_diff (n.headerWith w).ackedSeq outAck).toNat - 1 - i < 32 * (min w histWordsMax) →
+      (seq_num_diff (n.headerWith w).ackedSeq outAck).toNat - 1 - i < tg.length →
+      (pid - (((seq_num_diff (n.headerWith w).ackedSeq outAck).toNat - 1 - i : Nat) : Int), true) ∉ calls) := by
+  have hacked : (n.headerWith w).ackedSeq = n.inAckSeq := rfl
+  rw [hacked] at hi hvi hgt ⊢
+  generalize hidxdef : (seq_num_diff n.inAckSeq outAck).toNat - 1 - i = idx
+  have hreg := h.reg
+  have hr : 0 ≤ n.inAckSeq ∧ n.inAckSeq < 16384 := by rw [hreg]; omega
+  have hd := diff_spec n.inAckSeq outAck ⟨hr.1, by omega⟩ ⟨ho.1, by omega⟩
+  have hpos := (gt_iff_diff_pos n.inAckSeq outAck hr ho).mp hgt
+  have hcast : ((seq_num_diff n.inAckSeq outAck).toNat : Int) = seq_num_diff n.inAckSeq outAck := Int.toNat_of_nonneg (by omega)
+  have hidx : ((idx : Nat) : Int) = seq_num_diff n.inAckSeq outAck - 1 - i := by
+    rw [← hidxdef]; omega
+  have hv : v = (seq_num_inc outAck ((i + 1 : Nat) : Int), if idx ≥ histLen then false else (n.headerWith w).hist.getD idx false) := by
+    unfold verdicts at hvi
+    rw [List.getElem?_map, List.getElem?_range hi] at hvi
+    simp only [Option.map_some, Option.some.injEq] at hvi
+    rw [← hvi, hidxdef]
+  have hbitdef : (n.headerWith w).hist = n.hist.take (32 * (min w histWordsMax)) := rfl
+  refine ⟨?_, ?_, ?_⟩
+  · rw [hv]; simp only [seq_num_inc, seq_num_init]
+    rw [hidx]; push_cast; omega
+  · intro ht
+    rw [hv] at ht
+    simp only at ht
+    split at ht
+    · simp at ht
+    · rw [hbitdef, List.getD_eq_getElem?_getD, List.getElem?_take] at ht
+      split at ht
+      · have hb : n.hist.getD idx false = true := by rw [List.getD_eq_getElem?_getD]; exact ht
+        rw [h.hist] at hb
+        obtain ⟨hk, _, hv2⟩ := histOf_getD tg _ hb
+        have := (h.ack _ (List.getElem_mem hk)).mp hv2
+        rw [h.keys idx hk] at this
+        exact this
+      · simp at ht
+  · intro hf h256 hw hk hm
+    -- the tag at `idx` is `(pid - idx, bit)`; a request with verdict `true` would have set the bit
+    have hmem : tg[idx] ∈ tg := List.getElem_mem hk
+    have hkey := h.keys idx hk
+    have hset : (tg[idx]).2 = true := (h.ack _ hmem).mpr (by rw [hkey]; exact hm)
+    have hb : n.hist.getD idx false = true := by
+      rw [h.hist]; unfold histOf
+      rw [List.getD_eq_getElem?_getD, List.getElem?_take]
+      simp only [h256, if_true]
+      rw [List.getElem?_append_left (by simpa using hk)]
+      simp [List.getElem?_map, hk, hset]
+    rw [hv] at hf
+    simp only at hf
+    have h256' : ¬ idx ≥ histLen := by rw [histLen_eq]; omega
+    simp only [h256', if_false] at hf
+    rw [hbitdef, List.getD_eq_getElem?_getD, List.getElem?_take] at hf
+    simp only [hw, if_true] at hf
+    rw [List.getD_eq_getElem?_getD] at hb
+    rw [hb] at hf
+    cases hf
+
 end Utcp
